@@ -8,7 +8,7 @@ RULE = ('random operation sequences over 1–5 traced functions (two sharing a _
         'scripted dyadic clock, interleaved get_trace(average, max_history) queries and clear_trace(); '
         'every query result compared exactly with the Lean table model; non-trivial = ≥3 calls and ≥1 query '
         'with a window smaller than the history'
-        "; re-entrant call chains (recursion through the same or other traced functions) sent to the model's clock/stack machine as they are")
+        "; re-entrant call chains (recursion through the same or other traced functions) sent to the model's clock/stack machine as they are; durations with ~31 significant bits (exact in a double, not in a float32)")
 TRUSTED = [
     'Lean 4.33 kernel; axioms audited ⊆ {propext, Classical.choice, Quot.sound}',
     'hand-written model KV.Trace tied to kfac/tracing.py by this correspondence',
@@ -46,6 +46,10 @@ def gen_ops(rng, n):
         r = rng.random()
         if r < 0.62:
             dt = Fraction(rng.randrange(1, 64), 2 ** rng.randrange(0, 6))
+            if rng.random() < 0.15:
+                # a duration with ~31 significant bits (more than a float32 holds, far fewer than a double): long calls
+                # timed to sub-millisecond resolution
+                dt = Fraction(rng.randrange(2**25, 2**30) * 2 + 1, 2**12)
             ops.append(('c', rng.randrange(len(names)), dt, rng.random() < 0.15))
         elif r < 0.70:
             # re-entrant call: traced function chain[0] calls chain[1] calls ... before returning (recursion when an
